@@ -364,17 +364,20 @@ def encode_key(
     bytes
         bytes encoded string
     """
+    # string lengths are byte counts of the encoded text, not character counts
+    key_enc = key.encode()
     if value is None:
-        return struct.pack("I", len(key)) + key.encode()
+        return struct.pack("I", len(key_enc)) + key_enc
 
     if value_type == "str" and isinstance(value, str):
+        value_enc = value.encode()
         return (
-            struct.pack("I", len(key))
-            + key.encode()
-            + struct.pack("I", len(value))
-            + value.encode()
+            struct.pack("I", len(key_enc))
+            + key_enc
+            + struct.pack("I", len(value_enc))
+            + value_enc
         )
-    return struct.pack("I", len(key)) + key.encode() + struct.pack(value_type, value)
+    return struct.pack("I", len(key_enc)) + key_enc + struct.pack(value_type, value)
 
 
 def parse_radec(src_raj: float, src_dej: float) -> SkyCoord:
